@@ -50,13 +50,13 @@ func runC18(e *Env) {
 	reach := e.C.Reachable(roots...)
 	e.Flow(func(c *flow.Ctx) {
 		c.RuleNoPanicSites(reach, map[string]string{
-			"size.unmarshalJSONObject:string": "json.Decoder.Token returns object keys as string (contract of encoding/json inside an object)",
+			"json-object-key:string": "json.Decoder.Token returns object keys as string (contract of encoding/json at a member boundary inside an object)",
 		})
 		c.RuleIndexObligations(reach)
 		c.RuleLoopProgress(reach)
 	})
 	// the listed exception (object keys are strings) holds only if the reader consumes every member value completely
-	ruleSkipper(e, "C18.T1", e.P.Func("size", "decodeAndSkipNested"))
+	ruleSkipper(e, "C18.T1", e.F("size", "decodeAndSkipNested"))
 	if len(roots) < 27 {
 		e.S.Unk("C18.T1", "(anchors)", "floor", "fewer than 27 entry points resolved", "")
 	}
